@@ -46,7 +46,7 @@ meta["needs_to_manifest"] = open(readme).read()[:1500] if os.path.exists(readme)
 out = f"/verif/seeded/{name}"
 os.makedirs(out, exist_ok=True)
 for f in glob.glob(os.path.join(src, "*")):
-    if os.path.isfile(f) and os.path.getsize(f) < 200000:
+    if os.path.isfile(f) and os.path.getsize(f) < 200000 and os.path.abspath(src) != os.path.abspath(out):
         shutil.copy(f, out)
 json.dump(meta, open(os.path.join(out, "meta.json"), "w"), indent=1)
 # clean replay artefacts produced by the seeded run
